@@ -71,7 +71,7 @@ EncNet(n, tr) ==          \* tr = <<ip number, transport bytes>>; returns <<ethe
              hl == IF ihl >= 5 THEN 4 * ihl ELSE 20
              ttl == hl + Len(au[2])
              tl == CASE n.tl = "ok" -> ttl [] n.tl = "minus" -> ttl - 1 [] n.tl = "plus" -> ttl + 1
-                     [] n.tl = "hdrminus" -> hl - 1 [] n.tl = "hdr" -> hl [] n.tl = "minus3" -> Max(ttl - 3, 0)
+                     [] n.tl = "hdrminus" -> hl - 1 [] n.tl = "hdr" -> hl [] n.tl = "minus3" -> Max(ttl - 3, 0) [] n.tl = "twenty" -> 20
              fr == CASE n.frag = "no" -> <<64, 0>> [] n.frag = "mf" -> <<32, 0>> [] n.frag = "off" -> <<0, 5>> [] n.frag = "rsv" -> <<192, 0>>
              ver == CASE n.ver = "ok" -> 4 [] n.ver = "six" -> 6 [] n.ver = "five" -> 5 [] n.ver = "zero" -> 0
          IN <<ET_IPV4, <<ver * 16 + ihl, 46>> \o Be16(tl) \o <<171, 205>> \o fr \o <<64, au[1], 18, 52, 10, 0, 0, 1, 10, 0, 0, 2>>
@@ -150,6 +150,8 @@ V4s ==
   \cup {[DefV4 EXCEPT !.ver = x] : x \in {"six", "five", "zero"}}
   \cup {[DefV4 EXCEPT !.auth = x, !.trail = t] : x \in {"ok", "zero", "cut", "big"}, t \in {0, 3}}
   \cup {[DefV4 EXCEPT !.ihl = "opt", !.tl = x, !.auth = "ok"] : x \in {"minus", "plus"}}
+  \* options present AND a total length between the fixed part and the real header length / at the header length
+  \cup {[DefV4 EXCEPT !.ihl = i, !.tl = x, !.trail = t] : i \in {"opt", "max"}, x \in {"hdrminus", "hdr", "twenty", "minus", "plus"}, t \in {0, 3}}
 
 ExtKinds == {<<0, "ok">>, <<60, "ok">>, <<43, "ok">>, <<44, "ok">>, <<44, "frag">>, <<51, "ok">>, <<60, "long">>}
 ExtFaults == {<<0, "cut">>, <<60, "big">>, <<43, "cut">>, <<44, "cut">>, <<51, "zero">>, <<51, "cut">>, <<51, "big">>, <<44, "more">>}
